@@ -148,6 +148,7 @@ func checkC19(ctx *Ctx) {
 	for _, v := range []string{"noeol", "crlf", "blank"} {
 		v := v
 		jobs = append(jobs, func() { splitterE2E(ctx, 5, 2, v) })
+		jobs = append(jobs, func() { splitterMulti(ctx, []int{3, 5, 4}, 2) }, func() { splitterMulti(ctx, []int{1, 7}, 3) })
 	}
 	// --- concatenator, sources
 	for k := 0; k <= 4; k++ {
@@ -384,6 +385,47 @@ func splitterE2E(ctx *Ctx, n, L int, variant string) {
 	model := ctx.Drv.Ask("split", fmt.Sprint(L), bytesField(content))
 	if model != strings.Join(got, US) {
 		ctx.Res.Disagree(Violation{What: fmt.Sprintf("FileSplitter n=%d L=%d %s: parts %v, model %v", n, L, variant, got, quote(model)), Class: "c19.splitter", Witness: []int{n, L}})
+	}
+}
+
+// one FileSplitter, several input files in one run: every file is split on its own
+func splitterMulti(ctx *Ctx, ns []int, L int) {
+	pre := map[string]string{}
+	paths := []string{}
+	for f, n := range ns {
+		var sb strings.Builder
+		for i := 0; i < n; i++ {
+			sb.WriteString(fmt.Sprintf("f%d-line%d\n", f, i))
+		}
+		p := fmt.Sprintf("in%d.txt", f)
+		pre[p] = sb.String()
+		paths = append(paths, p)
+	}
+	d := &Desc{Name: "splitm", Max: 2, Nodes: []Node{{Name: "s", Kind: "filesource", Paths: paths}, {Name: "sp", Kind: "splitter", Arg: fmt.Sprint(L)}, {Name: "r", Kind: "recorder"}},
+		Edges: []Edge{{From: "s.out", To: "sp.file"}, {From: "sp.split_file", To: "r.in"}}}
+	rr := RunWorkflow(d, RunOpts{Pre: pre})
+	defer os.RemoveAll(rr.Dir)
+	ctx.Res.Eval(fmt.Sprintf("split-multi %v L=%d", ns, L), true, map[string]interface{}{"kind": "splitter-multi", "lines": ns, "per_split": L})
+	ctx.Res.Count("e2e=splitter-multi")
+	if rr.Exit != 0 {
+		ctx.Res.Violate(Violation{What: fmt.Sprintf("FileSplitter over %d files exited %d %s", len(ns), rr.Exit, tail(rr.Stderr)), Class: "c19.splitter-failed", Witness: ns})
+		return
+	}
+	parts := readRec(rr.Dir, "r")
+	perFile := map[string]string{}
+	for _, p := range parts {
+		b, _ := ioutil.ReadFile(filepath.Join(rr.Dir, p))
+		if L >= 1 && strings.Count(string(b), "\n") > L {
+			ctx.Res.Violate(Violation{What: fmt.Sprintf("FileSplitter part %s has %d lines, the limit is %d", p, strings.Count(string(b), "\n"), L), Class: "c19.splitter-bound", Witness: ns})
+		}
+		if i := strings.Index(p, ".split_"); i > 0 {
+			perFile[p[:i]] += string(b)
+		}
+	}
+	for p, content := range pre {
+		if perFile[p] != content {
+			ctx.Res.Violate(Violation{What: fmt.Sprintf("the parts of %s do not concatenate back to it", p), Class: "c19.splitter-concat", Witness: ns})
+		}
 	}
 }
 
